@@ -181,3 +181,66 @@ def tm_classes(case):
 def in_band_or_discard(lat, lon):
     if not (-80.0 <= lat <= 84.0) or not (-180.0 <= lon <= 180.0):
         raise Discard()
+
+
+# ------------------------------------------------------------------------------------------------ grid lattice
+
+def meridian_arc(lat_deg, a, invf):
+    """Meridian distance from the equator (k0 = 1), from the same exact oracle (dlon = 0)."""
+    return tm_exact.exact_tm(lat_deg, 0.0, a, invf)[0]
+
+
+@st.composite
+def grid_cases(draw, prj_strategy=None, ell_strategy=None, wide=True):
+    """A grid coordinate drawn directly: zone, hemisphere, easting, northing (plus ellipsoid and projection).
+
+    Northings are built from a fraction of the meridian arc to the band limit so that most cases lie inside the
+    latitude band; eastings either inside the usual zone (|E - FE| <= 400 km), anywhere in the accepted range, or on
+    a 100 km lattice.  Cases whose inverse falls outside the property's domain are discarded by the check (counted).
+    """
+    prj = draw(prj_strategy if prj_strategy is not None else _PRJ)
+    ell = draw(ell_strategy if ell_strategy is not None else S.ellipsoid_spec())
+    if prj == "isg" and draw(st.integers(0, 3)) > 0:
+        ell = "ans"
+    fe, fn, k0, zw, cm1, kind = S.projection_params(prj)
+    a, invf = S.ellipsoid_params(ell)
+    zs = zones_of(prj)
+    zone = zs[draw(st.integers(0, len(zs) - 1))]
+    south = draw(st.booleans())
+    ymax = abs(meridian_arc(-80.0 if south else 84.0, a, invf)) * k0
+    sel = draw(st.integers(0, 5))
+    if sel == 0:
+        y = round(draw(_unit) * ymax / 1e5) * 1e5        # 100 km lattice
+    elif sel == 1:
+        y = [0.0, 1e-4, 1.0, ymax * (1 - 1e-9), ymax * 0.5][draw(st.integers(0, 4))]
+    else:
+        y = draw(_unit) * ymax
+    north = (fn - y) if south else y
+    esel = draw(st.integers(0, 5)) if wide else 2
+    if esel <= 2:
+        x = (draw(_unit) * 2 - 1) * 400000.0
+    elif esel == 3:
+        x = round((draw(_unit) * 2 - 1) * 30) * 1e5      # 100 km lattice out to +-3000 km
+    elif esel == 4:
+        x = [0.0, 1e-4, -1e-4, 1.0, -1.0][draw(st.integers(0, 4))]
+    else:
+        x = (draw(_unit) * 2 - 1) * 3.3e6
+    east = fe + x
+    return {"zone": zone, "east": east, "north": north, "hemi": "south" if south else "north", "ell": ell, "prj": prj}
+
+
+def grid_domain_or_discard(case, lat, lon):
+    """C02's quantifier: accepted E/N range, latitude at least 1e-6 deg inside the band, |lon - CM| <= 30, lon in [-180, 180]."""
+    if not (-2830000.0 <= case["east"] <= 3830000.0) or not (0.0 <= case["north"] <= 10000000.0):
+        raise Discard()
+    if not (-80.0 + 1e-6 <= lat <= 84.0 - 1e-6):
+        raise Discard()
+    cm = cm_of(case["prj"], case["zone"])
+    if abs(lon - cm) > 30.0 or not (-180.0 <= lon <= 180.0):
+        raise Discard()
+
+
+def grid_range_or_discard(east, north):
+    """The inverse conversion documents (and enforces) eastings in [-2 830 000, 3 830 000] and northings in [0, 1e7]."""
+    if not (-2830000.0 <= east <= 3830000.0) or not (0.0 <= north <= 10000000.0):
+        raise Discard()
